@@ -80,8 +80,11 @@ def check_balance(ctx: RuleContext, sb: StackBalance, cg: CallGraph, tag: str):
     n_pop_sites = len(cg.sites.get(pop_q, []))
     ctx.counters["push_call_sites"] = n_push_sites
     ctx.counters["pop_call_sites"] = n_pop_sites
-    ctx.floor(f"{tag}.1", "push_call_sites", 2)
-    ctx.floor(f"{tag}.1", "pop_call_sites", 2)
+    # (the two wrapper flavours and the context class may share one push site -- a scope class used by all of
+    # them -- so the vacuity floor is on the activations that must be balanced, counted below)
+    ctx.floor(f"{tag}.1", "push_call_sites", 1)
+    ctx.floor(f"{tag}.1", "pop_call_sites", 1)
+    activations = 0
 
     cm_classes = 0
     for f in m.all_functions():
@@ -117,6 +120,7 @@ def check_balance(ctx: RuleContext, sb: StackBalance, cg: CallGraph, tag: str):
             ctx.ok(f"{tag}.1", f.qualname,
                    f"helper with consistent effect {sorted(s.normal)} on return and 0 on raise; callers are checked")
             continue
+        activations += 1
         _expect(ctx, f"{tag}.1", f, s, normal={0}, exc={0},
                 what="a binding context pushed by this activation must be popped exactly once "
                      "on every path to every exit (return, Exception, BaseException)")
@@ -140,6 +144,8 @@ def check_balance(ctx: RuleContext, sb: StackBalance, cg: CallGraph, tag: str):
                                 path=fl.witness(n, stt))
         if not bad_susp:
             ctx.ok(f"{tag}.3", f.qualname, "no yield/await between a push and its pop")
+    ctx.counters["balanced_activations"] = activations
+    ctx.floor(f"{tag}.1", "balanced_activations", 2)
     ctx.counters["context_manager_classes"] = cm_classes
     ctx.floor(f"{tag}.2", "context_manager_classes", 1)
 
